@@ -1013,6 +1013,18 @@ func (ss schedsim) backup(m *mtWorld, e *work.Exec, ci, si int, st *work.Step, t
 
 func (ss schedsim) Shrinks(c *Case) []*Case {
 	var out []*Case
+	// fewer injected faults first (C08's concurrent arm)
+	if len(c.Extra) > 0 {
+		var sx schedExtra
+		if json.Unmarshal(c.Extra, &sx) == nil && len(sx.Faults) > 1 {
+			for i := range sx.Faults {
+				d := c.Clone()
+				x := schedExtra{Faults: append(append([]sim.FaultPlan(nil), sx.Faults[:i]...), sx.Faults[i+1:]...)}
+				d.Extra, _ = json.Marshal(x)
+				out = append(out, d)
+			}
+		}
+	}
 	// drop whole clients, then steps of clients, then ops; the sched tape is
 	// kept (reading past its end yields 0 = lowest enabled task)
 	for i := range c.Clients {
